@@ -7,9 +7,9 @@ from .front import cast
 GEN = (("Gen_C02.tla", 8), ("Gen_C05.tla", 3))
 
 
-def run_static_property(ctx, field, what, rule, select=None, extra=None, gen=GEN, n_corpus=(100, None), gen_kind="stmt"):
+def run_static_property(ctx, field, what, rule, select=None, extra=None, gen=GEN, n_corpus=(100, None), gen_kind="stmt", keep=None):
     """field: 'sort' | 'emitc' | 'meta'; select(report_value) -> bool (is this report a violation of THIS property)"""
-    art = artefacts.collect(ctx, n_corpus=n_corpus, gen_modules=gen, gen_kind=gen_kind)
+    art = artefacts.collect(ctx, n_corpus=n_corpus, gen_modules=gen, gen_kind=gen_kind, keep=keep)
     s, reps = artefacts.run_static(art)
     bad = 0
     for r in reps:
